@@ -39,6 +39,8 @@ pub fn profile() -> Profile {
     p.private = 3;
     p.workgroup = 3;
     p.unused_structs = (0, 3);
+    p.vin_as_storage = 2;
+    p.out_as_storage = 2;
     p
 }
 
